@@ -628,10 +628,45 @@ def run(ctx):
         fa, fb, na = ["this", "fa"], ["this", "fb"], ["this", "n"]
         for cond in (["bin", "&", ["un", "~", fa], fb], ["bin", "|", ["un", "~", fa], fb], ["bin", "&", fa, ["un", "~", fb]], ["un", "~", ["bin", "&", fa, fb]], ["un", "~", ["bin", "|", fa, fb]],
                      ["bin", "&", ["un", "~", ["bin", ">", na, 1]], fb], ["bin", "==", ["un", "-", na], -1], ["bin", "|", ["bin", "==", na, 0], ["un", "~", fa]], ["bin", ">", ["bin", "-", 3, na], 1],
+                     # every comparison against a threshold the field values hit exactly (n is 0..4)
+                     ["bin", ">=", na, 2], ["bin", "<=", na, 2], ["bin", "<", na, 2], ["bin", ">", na, 2], ["bin", "!=", na, 2], ["bin", ">=", 2, na], ["bin", "<=", 2, na], ["bin", "<", 2, na],
+                     ["bin", "&", ["bin", ">=", na, 1], ["bin", "<=", na, 3]], ["bin", "|", ["bin", "<", na, 1], ["bin", ">=", na, 3]],
                      ["bin", "==", ["bin", "-", ["bin", "-", na, 1], 1], 0], ["bin", "==", ["bin", "-", na, ["bin", "-", 1, 1]], 1], ["bin", "==", ["bin", "%", ["bin", "*", na, 3], 2], 1]):
             for _ in range(ctx.pick(3, 10)):
                 run_recipe(ctx, rng, ["Struct", [["fa", F], ["fb", F], ["n", B], ["x", ["If", cond, ["name", "Int16ub"]]], ["t", B]]])
                 run_recipe(ctx, rng, ["Struct", [["fa", F], ["fb", F], ["n", B], ["x", ["IfThenElse", cond, ["name", "Int16ub"], ["Bytes", 3]]], ["t", B]]])
+        # the same construct object (the Flag singleton, which needs a wrapper type inside Array) in a byte-oriented place and inside a
+        # bit-level structure of one schema: the byte-level occurrence is described with a byte type, the bit-level one with a bit type.
+        # (How consecutive wrapper types inside a bit-level structure share a byte is not something the schema interpreter used here
+        #  decides - it aligns at the end of every user type - so these schemas are inspected, not interpreted.)
+        import construct as C
+        Fl = C.Flag
+        for order in (0, 1):
+            ms = ["enabled" / C.Array(2, Fl), "packed" / C.BitStruct("options" / C.Array(3, Fl), "level" / C.BitsInteger(5))]
+            d0 = C.Struct(*(ms if order == 0 else ms[::-1]), "t" / C.Byte)
+            ctx.ev()
+            try:
+                sch = json.loads(d0.export_ksy())
+                tp = sch["types"]
+                by_id = {a["id"]: a for a in sch["seq"]}
+                leaf_byte = tp[by_id["enabled"]["type"]]["seq"][0]["type"]
+                packed = {a["id"]: a for a in tp[by_id["packed"]["type"]]["seq"]}
+                leaf_bit = tp[packed["options"]["type"]]["seq"][0]["type"]
+            except Exception as e:
+                ctx.violation("export-raises:%s:shared-singleton" % type(e).__name__, "schema of a format using Flag at byte level and at bit level: %s" % str(e)[:160], {"recipe": "shared-singleton", "order": order})
+                continue
+            if not str(leaf_byte).startswith("u1") or str(leaf_bit) != "b1":
+                ctx.violation("layout-differs:shared-object-in-both-contexts", "Flag inside Array at byte level is described as %r (expected u1), inside a BitStruct as %r (expected b1)" % (leaf_byte, leaf_bit),
+                              {"recipe": "shared-singleton", "order": order})
+            ctx.count("schemas_inspected_shared_singleton")
+        for rr in (["Struct", [["f", ["name", "Flag"]], ["bs", ["BitStruct", [["f", ["name", "Flag"]], [None, ["Padding", 7]]]]], ["g", ["name", "Flag"]]]],
+                   ["Struct", [["a", ["Array", 2, B]], ["bits", ["Bitwise", ["Struct", [["xs", ["Array", 2, ["name", "Nibble"]]], ["ys", ["Array", 2, ["name", "Nibble"]]]]]]], ["b", ["Array", 2, B]]]]):
+            for _ in range(ctx.pick(4, 20)):
+                run_recipe(ctx, rng, rr)
+        # repeat-until predicates with every comparison, on data that hits the bound exactly
+        for cmp_, bound in (("<=", 0x7f), ("<", 0x80), (">=", 0x80), (">", 0x7f), ("==", 0), ("!=", 0xff)):
+            for _ in range(ctx.pick(3, 12)):
+                run_recipe(ctx, rng, ["Struct", [["xs", ["RepeatUntil", ["bin", cmp_, ["obj"], bound], B]], ["t", B]]])
         # a terminator left in the stream for the next member (consume=False: parse does not give back what was built, the schema
         # must still describe what parse does), at top level, in regions at offset 0 and behind headers
         GBs = ["name", "GreedyBytes"]
